@@ -305,6 +305,7 @@ impl<'a> Machine<'a> {
             Expr::Var(v) => self.vars.get(v).cloned().ok_or(()),
             Expr::Add(v, k) => self.vars.get(v).map(|x| x + k).ok_or(()),
             Expr::Bad => Err(()),
+            Expr::Raw(_, v) => Ok(*v),
         }
     }
 
